@@ -1148,8 +1148,8 @@ def run(ctx):
     reg = sorted((VERIF / 'regress' / 'C19').glob('*.json'))
     specs = [json.loads(p.read_text()) for p in reg]
     specs = [s['spec'] if 'spec' in s else s for s in specs]
-    n = 380 if ctx.tier == 'quick' else 6000
-    nm = 50 if ctx.tier == 'quick' else 600
+    n = 380 if ctx.tier == 'quick' else 4800
+    nm = 50 if ctx.tier == 'quick' else 500
     specs += [gen_spec(ctx.rng) for _ in range(n)] + [gen_spec(ctx.rng, 'malformed') for _ in range(nm)]
     kept, verdicts, infos, stats = run_specs(ctx, specs, 'gen')
     ctx.log('generated cases done', stats)
